@@ -22,7 +22,9 @@ find_match, capture_match_info_fn, static_match, build_resource_path}`), `regex_
 Paths and patterns are `List Char` (Unicode scalar values, as the `regex` crate sees a `&str`);
 all offsets are **UTF-8 byte** offsets (`blen`), as in Rust.  `as u16` truncations and the
 `u16` additions of `Path::add` / `Path::skip` are explicit (`asU16`, `addU16`; the harness is
-built with overflow checks, so an overflowing addition is a panic).
+built with overflow checks, so an overflowing addition is a panic).  Since fix 448eed6 the dynamic
+arms refuse a full path longer than 65 535 bytes (`PathState.tooLong`), so for them the casts and
+additions can no longer go wrong (`C10_offsets_u16`); the static arm is unguarded.
 
 ## Regex fragment
 
@@ -299,15 +301,20 @@ def captureDyn (d : DynPat) (p : PathState) : Outcome :=
     | none => .noMatch
     | some vars => commit p len vars
 
-/-- `capture_match_info` = `capture_match_info_fn(resource, |_| true)` (resource.rs:677-751) -/
+/-- the guard at the head of the `Dynamic` / `DynamicSet` arms (fix 448eed6): `Path` stores
+segment offsets as `u16`, so a *full* path longer than `u16::MAX` bytes is never captured -/
+def PathState.tooLong (p : PathState) : Bool := decide (65535 < blen p.path)
+
+/-- `capture_match_info` = `capture_match_info_fn(resource, |_| true)` (resource.rs:677-761) -/
 def ResourceDef.captureMatchInfo (rd : ResourceDef) (p : PathState) : Outcome :=
   match rd.patType with
   | .static pat =>
     match staticMatch rd.isPrefix pat p.unprocessed with
     | some len => commit p len []
     | none => .noMatch
-  | .dynamic d => captureDyn d p
+  | .dynamic d => if p.tooLong then .noMatch else captureDyn d p
   | .dynamicSet ds =>
+    if p.tooLong then .noMatch else
     match firstMatchIdx ds p.unprocessed with
     | none => .noMatch
     | some idx =>
